@@ -52,13 +52,19 @@ type mline struct {
 	Name []string `json:"name"`
 }
 
+type evt struct {
+	Title []string   `json:"title"`
+	Text  string     `json:"text"`
+	Tags  [][]string `json:"tags"`
+}
+
 type dcase struct {
 	Lines    [][]string `json:"lines"`
 	Trailing bool       `json:"trailing"`
 	IH       bool       `json:"ih"`
 	Metrics  []mline    `json:"metrics"`
 	Map      []series   `json:"map"`
-	Events   int        `json:"events"`
+	Events   []evt      `json:"events"`
 	Bad      int        `json:"bad"`
 }
 
@@ -200,7 +206,7 @@ func TestCases(t *testing.T) {
 			// --- counters
 			r.bad += float64(c.Bad)
 			r.metrics += float64(len(c.Metrics))
-			r.events += float64(c.Events)
+			r.events += float64(len(c.Events))
 			if g, ok := r.st.GetGauge("parser.bad_lines_seen"); (ok && g != r.bad) || (!ok && r.bad != 0) {
 				fail("bad-line-count", "bad_lines_seen=%v want %v (this datagram: %d rejected lines)", g, r.bad, c.Bad)
 				r.bad = g
@@ -214,10 +220,20 @@ func TestCases(t *testing.T) {
 				r.events = g
 			}
 			// --- events
-			if len(evs) != c.Events {
-				fail("event-count", "%d events dispatched, want %d", len(evs), c.Events)
+			if len(evs) != len(c.Events) {
+				fail("event-count", "%d events dispatched, want %d", len(evs), len(c.Events))
 			}
-			for _, e := range evs {
+			for i, e := range evs {
+				if i < len(c.Events) {
+					w := c.Events[i]
+					var wt []string
+					for _, tg := range w.Tags {
+						wt = append(wt, cat(tg))
+					}
+					if e.Title != cat(w.Title) || e.Text != w.Text || fmt.Sprint([]string(e.Tags)) != fmt.Sprint(wt) {
+						fail("event-fields", "event %d is title=%q text=%q tags=%q, want %q %q %q", i, e.Title, e.Text, e.Tags, cat(w.Title), w.Text, wt)
+					}
+				}
 				if e.Source != ip {
 					fail("event-source", "event source %q want %q", e.Source, ip)
 				}
@@ -327,7 +343,7 @@ func TestCases(t *testing.T) {
 				}
 			}
 			if idx%4999 == 11 {
-				res.Sample(map[string]any{"datagram": text, "ignore_host": c.IH, "expect_map": c.Map, "bad": c.Bad, "events": c.Events})
+				res.Sample(map[string]any{"datagram": text, "ignore_host": c.IH, "expect_map": c.Map, "bad": c.Bad, "events": len(c.Events)})
 			}
 			return nil
 		})
